@@ -264,6 +264,20 @@ private:
     std::vector<long double> p_;
 };
 
+// thread-local totals of raw draws / discards (fed by CountingEngine and ScriptEngine)
+struct DrawLog
+{
+    std::uint64_t draws = 0;
+    std::uint64_t discarded = 0;
+    std::uint64_t discard_calls = 0;
+};
+
+inline DrawLog& drawlog()
+{
+    static thread_local DrawLog l;
+    return l;
+}
+
 // ------------------------------------------------------------------------------------------------
 // ScriptEngine: 64-bit range engine replaying prepared raw outputs (DESIGN 3.2).
 // libstdc++ generate_canonical<T,digits> takes exactly one draw from it and returns T(raw)/2^64
@@ -294,11 +308,12 @@ public:
     result_type operator()()
     {
         std::uint64_t p = pos_++;
+        ++drawlog().draws;
         if (script_ && p < script_->raw.size()) return script_->raw[p];
         std::uint64_t s = (script_ ? script_->tail_seed : 1) + p * 0x9e3779b97f4a7c15ULL;
         return splitmix(s);
     }
-    void discard(unsigned long long n) { pos_ += n; }
+    void discard(unsigned long long n) { pos_ += n; drawlog().discarded += n; ++drawlog().discard_calls; }
     std::uint64_t position() const { return pos_; }
     void seed(std::uint64_t = 0) { pos_ = 0; }
 
@@ -340,19 +355,6 @@ inline std::uint64_t raw_of(long double u)
 // ------------------------------------------------------------------------------------------------
 // CountingEngine: wraps a real engine, counts raw draws and discards (thread-local totals)
 // ------------------------------------------------------------------------------------------------
-struct DrawLog
-{
-    std::uint64_t draws = 0;
-    std::uint64_t discarded = 0;
-    std::uint64_t discard_calls = 0;
-};
-
-inline DrawLog& drawlog()
-{
-    static thread_local DrawLog l;
-    return l;
-}
-
 template <typename E> class CountingEngine
 {
 public:
